@@ -17,11 +17,15 @@
 //   — so that every remote endpoint on T1 can be matched by TWO local endpoints at once —,
 //   1 reader + 1 writer on T2, different QoS) and 2 participants x (writer T1, writer T2, reader T1);
 //   2 QoS assignments (mixed compatible/incompatible; all compatible), fixed per endpoint;
-//   alphabet = 14 events (4 writer announces, 4 writer disposes, 2 reader announces, 2 reader
-//   disposes, 2 participant losses);
+//   alphabet = 16 events (4 writer announces, 4 writer disposes, 2 reader announces, 2 reader
+//   disposes, 2 participant losses x {participant gone from the DiscoveryDB, participant ALREADY BACK
+//   in the DiscoveryDB (re-announced by SPDP before the event loop handled the loss; its endpoints not
+//   re-announced)}); the harness plays Discovery on the real DiscoveryDB the event loop reads
+//   (update_participant before an announce, remove_participant [+ update_participant] before a loss);
 //   (1) every event sequence of length <= 3 on a FRESH event loop, followed by disposing every remote
 //       endpoint one by one (reveals stale matches);
-//   (2) every event sequence of length 4 in ONE long history on one event loop per QoS assignment,
+//   (2) every event sequence of length 4 in long histories (one event loop per QoS assignment and half
+//       of the alphabet for the first event),
 //       the sequences separated by a reset made of alphabet events (alternately participant losses
 //       and single disposes) after which all match sets are empty again.
 // Observation: Reader::contains_writer for readers (remote entity ids are pairwise distinct);
@@ -47,8 +51,11 @@ mod verif_xc_matching_event_loop {
       typedesc::TypeDesc,
       with_key::simpledatareader::ReaderCommand,
     },
-    discovery::sedp_messages::{
-      PublicationBuiltinTopicData, ReaderProxy, SubscriptionBuiltinTopicData, WriterProxy,
+    discovery::{
+      sedp_messages::{
+        PublicationBuiltinTopicData, ReaderProxy, SubscriptionBuiltinTopicData, WriterProxy,
+      },
+      SpdpDiscoveredParticipantData,
     },
     mio_source,
     rtps::writer::WriterCommand,
@@ -151,14 +158,19 @@ mod verif_xc_matching_event_loop {
   enum Ev {
     Announce(usize), // remote_writer_discovered / remote_reader_discovered
     Dispose(usize),  // remote_writer_lost / remote_reader_lost
-    PLost(usize),    // remote_participant_lost
+    // remote_participant_lost(p); bool = what the DiscoveryDB says about p when the event loop gets to
+    // the notification: false = p is gone (Discovery removed it), true = p is ALREADY BACK (Discovery
+    // handled 'p lost' and a new SPDP announcement of p before the event loop drained its queue; the
+    // endpoints of p have not been announced again)
+    PLost(usize, bool),
   }
   impl fmt::Debug for Ev {
     fn fmt(&self, f: &mut fmt::Formatter<'_>) -> fmt::Result {
       match *self {
         Ev::Announce(r) => write!(f, "remote_{}_discovered({})", if REMOTES[r].is_reader { "reader" } else { "writer" }, REMOTES[r].name),
         Ev::Dispose(r) => write!(f, "remote_{}_lost({})", if REMOTES[r].is_reader { "reader" } else { "writer" }, REMOTES[r].name),
-        Ev::PLost(p) => write!(f, "remote_participant_lost(P{p})"),
+        Ev::PLost(p, false) => write!(f, "remote_participant_lost(P{p})"),
+        Ev::PLost(p, true) => write!(f, "remote_participant_lost(P{p})[P{p} already back in the DiscoveryDB, endpoints not re-announced]"),
       }
     }
   }
@@ -166,8 +178,7 @@ mod verif_xc_matching_event_loop {
     let mut v = vec![];
     for r in 0..REMOTES.len() { v.push(Ev::Announce(r)); }
     for r in 0..REMOTES.len() { v.push(Ev::Dispose(r)); }
-    v.push(Ev::PLost(0));
-    v.push(Ev::PLost(1));
+    for p in 0..2 { v.push(Ev::PLost(p, false)); v.push(Ev::PLost(p, true)); }
     v
   }
 
@@ -192,7 +203,7 @@ mod verif_xc_matching_event_loop {
       match e {
         Ev::Announce(r) => { self.announced.insert(r); }
         Ev::Dispose(r) => { self.announced.remove(&r); }
-        Ev::PLost(p) => self.announced.retain(|&r| REMOTES[r].participant != p),
+        Ev::PLost(p, _) => self.announced.retain(|&r| REMOTES[r].participant != p), // whatever the DB says
       }
     }
   }
@@ -211,6 +222,8 @@ mod verif_xc_matching_event_loop {
 
   struct Harness {
     ev: DPEventLoop,
+    db: Arc<RwLock<DiscoveryDB>>, // the DiscoveryDB the event loop reads; the harness plays Discovery
+    spdp: [SpdpDiscoveredParticipantData; 2],
     model: Model,
     status: Vec<StatusRx>,
     last_total_seen: [i32; NL],
@@ -244,7 +257,7 @@ mod verif_xc_matching_event_loop {
         DomainInfo { domain_participant_guid: participant_guid, domain_id: 0, participant_id: 0 },
         Arc::clone(&dds_cache),
         HashMap::new(),
-        discovery_db,
+        Arc::clone(&discovery_db),
         prefix(0),
         TokenReceiverPair { token: ADD_READER_TOKEN, receiver: add_reader_receiver },
         TokenReceiverPair { token: REMOVE_READER_TOKEN, receiver: remove_reader_receiver },
@@ -301,8 +314,12 @@ mod verif_xc_matching_event_loop {
           status.push(StatusRx::W(status_receiver));
         }
       }
+      let template = crate::test::test_data::spdp_participant_data().unwrap();
+      let spdp = [0, 1].map(|p| SpdpDiscoveredParticipantData { participant_guid: GUID::new(prefix(p), EntityId::PARTICIPANT), ..template.clone() });
       Harness {
         ev,
+        db: discovery_db,
+        spdp,
         model: Model { cfg, announced: BTreeSet::new(), total: [0; NL], incompat: [0; NL] },
         status,
         last_total_seen: [0; NL],
@@ -314,6 +331,16 @@ mod verif_xc_matching_event_loop {
 
     fn apply_real(&mut self, e: Ev) {
       let cfg = &self.model.cfg;
+      // what Discovery did to the DiscoveryDB before it sent the notification
+      match e {
+        Ev::Announce(r) => { self.db.write().unwrap().update_participant(&self.spdp[REMOTES[r].participant]); }
+        Ev::Dispose(_) => {}
+        Ev::PLost(p, back_again) => {
+          self.db.write().unwrap().remove_participant(prefix(p), true);
+          if back_again { self.db.write().unwrap().update_participant(&self.spdp[p]); }
+          assert!(self.db.read().unwrap().find_participant_proxy(prefix(p)).is_some() == back_again);
+        }
+      }
       match e {
         Ev::Announce(r) if REMOTES[r].is_reader => {
           let g = rguid(r);
@@ -348,7 +375,11 @@ mod verif_xc_matching_event_loop {
         // (`let _ =`: independent of what the functions return)
         Ev::Dispose(r) if REMOTES[r].is_reader => { let _ = self.ev.remote_reader_lost(rguid(r)); }
         Ev::Dispose(r) => { let _ = self.ev.remote_writer_lost(rguid(r)); }
-        Ev::PLost(p) => { let _ = self.ev.remote_participant_lost(prefix(p)); }
+        Ev::PLost(p, back_again) => {
+          let _ = self.ev.remote_participant_lost(prefix(p));
+          // the ParticipantUpdated notification that follows in the queue
+          if back_again { let _ = self.ev.update_participant(prefix(p)); }
+        }
       }
     }
 
@@ -430,7 +461,7 @@ mod verif_xc_matching_event_loop {
         // ---- the match set
         let (real, conclusive) = self.real_set(l);
         let want: BTreeSet<usize> = post.iter().copied().filter(|r| conclusive.contains(r)).collect();
-        let set_label = if matches!(e, Ev::PLost(_)) { "match.lost.set" } else { "match.lemma.set" };
+        let set_label = if matches!(e, Ev::PLost(..)) { "match.lost.set" } else { "match.lemma.set" };
         assert!(real == want, "XC-WITNESS label={} {} local={}: matched with {:?} but the announced, compatible endpoints on its topic are {:?}",
           set_label, self.ctx(), lname, names(&real), names(&want));
         // ---- the status events of this step
@@ -446,7 +477,7 @@ mod verif_xc_matching_event_loop {
           Ev::Announce(_) => "match.add",
           Ev::Dispose(_) if pre[l] == post => "match.unknown",
           Ev::Dispose(_) => "match.remove",
-          Ev::PLost(_) => "match.lost.events",
+          Ev::PLost(..) => "match.lost.events",
         };
         let mut cur = pre[l].len() as i32;
         let mut pending_out: BTreeSet<usize> = pre[l].difference(&post).copied().collect();
@@ -501,8 +532,8 @@ mod verif_xc_matching_event_loop {
     // back to "nothing announced", by events of the alphabet (each one checked like any other)
     fn reset(&mut self, by_participant: bool, n_done: u64) {
       if by_participant {
-        self.step(Ev::PLost(0));
-        self.step(Ev::PLost(1));
+        self.step(Ev::PLost(0, n_done % 4 == 0));
+        self.step(Ev::PLost(1, n_done % 8 < 4));
       } else {
         for r in 0..REMOTES.len() { self.step(Ev::Dispose(r)); }
       }
@@ -533,7 +564,7 @@ mod verif_xc_matching_event_loop {
         n_match_changes += h.model.total.iter().map(|&t| t as u64).sum::<u64>();
       }
     }
-    assert!(n == 1 + 14 + 14 * 14 + 14 * 14 * 14, "vacuity guard: only {} sequences enumerated", n);
+    assert!(n == 1 + 16 + 16 * 16 + 16 * 16 * 16, "vacuity guard: only {} sequences enumerated", n);
     assert!(n_match_changes > 2_500, "vacuity guard: only {} matches were made", n_match_changes);
   }
   #[test]
@@ -541,12 +572,12 @@ mod verif_xc_matching_event_loop {
   #[test]
   fn xc_evloop_fresh_len3_all_compatible() { fresh_len3(CFGS[1]); }
 
-  // (2) every sequence of length 4, as one long history on one event loop
-  fn history_len4(cfg: Cfg) {
+  // (2) every sequence of length 4, as one long history on one event loop (two halves by first event)
+  fn history_len4(cfg: Cfg, half: usize) {
     let abc = alphabet();
     let mut n = 0u64;
     let mut h = Harness::new(cfg);
-    for &e1 in &abc {
+    for &e1 in &abc[half * 8..half * 8 + 8] {
       for &e2 in &abc {
         for &e3 in &abc {
           for &e4 in &abc {
@@ -560,14 +591,18 @@ mod verif_xc_matching_event_loop {
         }
       }
     }
-    assert!(n == 14 * 14 * 14 * 14, "vacuity guard: only {} sequences enumerated", n);
-    assert!((0..NL).all(|l| if l == 4 { h.model.total[l] == 0 } else { h.model.total[l] > 1000 }),
+    assert!(n == 8 * 16 * 16 * 16, "vacuity guard: only {} sequences enumerated", n);
+    assert!((0..NL).all(|l| if l == 4 { h.model.total[l] == 0 } else { h.model.total[l] > 500 }),
       "vacuity guard: match totals {:?} (LW1 on T2 can never match: no remote reader on T2)", h.model.total);
-    assert!(cfg != CFGS[0] || h.model.incompat.iter().filter(|&&c| c > 1000).count() >= 3,
+    assert!(cfg != CFGS[0] || h.model.incompat.iter().filter(|&&c| c > 500).count() >= 3,
       "vacuity guard: incompatible counts {:?}", h.model.incompat);
   }
   #[test]
-  fn xc_evloop_history_len4_mixed_qos() { history_len4(CFGS[0]); }
+  fn xc_evloop_history_len4_mixed_qos_a() { history_len4(CFGS[0], 0); }
   #[test]
-  fn xc_evloop_history_len4_all_compatible() { history_len4(CFGS[1]); }
+  fn xc_evloop_history_len4_mixed_qos_b() { history_len4(CFGS[0], 1); }
+  #[test]
+  fn xc_evloop_history_len4_all_compatible_a() { history_len4(CFGS[1], 0); }
+  #[test]
+  fn xc_evloop_history_len4_all_compatible_b() { history_len4(CFGS[1], 1); }
 }
